@@ -25,7 +25,14 @@ pub fn floor_ceil<T: Fx>(r: &mut Rec, x: T) {
 }
 
 /// values that matter for rounding to dp places
+fn interesting_boundary<T: Fx>(dp: u32) -> Vec<T> {
+    let mut rng = StdRng::seed_from_u64(0);
+    interesting_impl::<T>(dp, &mut rng, true, false)
+}
 fn interesting<T: Fx>(dp: u32, rng: &mut StdRng, quick: bool) -> Vec<T> {
+    interesting_impl::<T>(dp, rng, quick, true)
+}
+fn interesting_impl<T: Fx>(dp: u32, rng: &mut StdRng, quick: bool, with_random: bool) -> Vec<T> {
     let j = T::SD - dp;
     let u = Big::pow10(j);
     let half = u.half(); // u/2 (0 for u = 1: no ties at full precision)
@@ -39,8 +46,14 @@ fn interesting<T: Fx>(dp: u32, rng: &mut StdRng, quick: bool) -> Vec<T> {
     }
     let top = top.mul(&u);
     let bot = bot.mul(&u).neg();
-    let mut ks: Vec<Big> = vec![Big::zero(), u.clone(), u.muli(2), u.muli(3), u.muli(10), top.clone(), top.sub(&u), bot.clone(), bot.add(&u)];
-    let nr = if quick { 2 } else { 6 };
+    // boundary multiples first (quick keeps the FULL product with modes for everything derived from them),
+    // random multiples last (the bulk: quick rotates modes over them)
+    let mut ks: Vec<Big> = vec![Big::zero(), u.clone(), u.muli(2), top.clone(), top.sub(&u), bot.clone(), bot.add(&u)];
+    if !quick && with_random {
+        ks.push(u.muli(3));
+        ks.push(u.muli(10));
+    }
+    let nr = if !with_random { 0 } else if quick { 1 } else { 6 };
     for _ in 0..nr {
         // a random multiple of u
         let mut q = random_value::<T>(rng).big();
@@ -73,11 +86,30 @@ fn interesting<T: Fx>(dp: u32, rng: &mut StdRng, quick: bool) -> Vec<T> {
             }
         }
     }
-    for b in [min.clone(), min.addi(1), min.add(&half), min.add(&half).addi(1), min.add(&u), max.clone(), max.addi(-1),
-              max.sub(&half), max.sub(&half).addi(-1), max.sub(&u)] {
-        add(b);
+    v
+}
+/// MIN / MAX and the values within one unit of them
+fn range_ends<T: Fx>(dp: u32) -> Vec<T> {
+    let j = T::SD - dp;
+    let u = Big::pow10(j);
+    let half = u.half();
+    let (min, max) = (T::min_big(), T::max_big());
+    let mut v: Vec<T> = vec![];
+    for b in [min.clone(), min.addi(1), min.add(&half), min.add(&half).addi(1), min.add(&half).addi(-1), min.add(&u), max.clone(), max.addi(-1),
+              max.sub(&half), max.sub(&half).addi(-1), max.sub(&half).addi(1), max.sub(&u)] {
+        if let Some(x) = T::from_big(&b) {
+            if !v.contains(&x) {
+                v.push(x);
+            }
+        }
     }
     v
+}
+/// number of values of `interesting` that stem from the boundary multiples (each multiple contributes
+/// at most 18 values: 2 signs x (3 around the multiple + 2 x 3 around its ties))
+fn is_bulk<T: Fx>(x: &T, dp: u32, boundary: &[T]) -> bool {
+    let _ = dp;
+    !boundary.contains(x)
 }
 
 fn near_bounds<T: Fx>(x: &T, dp: u32) -> bool {
@@ -89,25 +121,42 @@ fn near_bounds<T: Fx>(x: &T, dp: u32) -> bool {
 fn round_for<T: Fx>(r: &mut Rec, rng: &mut StdRng, scale: usize) {
     let quick = scale == 1;
     for dp in 0..=T::SD {
-        let vals = interesting::<T>(dp, rng, quick);
-        for (i, x) in vals.iter().enumerate() {
+        // every value at / next to a limit (multiples 0, u, 2u and the largest / smallest representable ones, their exact
+        // ties, +-1 sub-unit, MIN / MAX and their neighbourhood) gets ALL 7 modes in every tier; only values derived
+        // from random multiples rotate 3 of 7 modes in quick runs
+        let mut boundary = interesting_boundary::<T>(dp);
+        for x in range_ends::<T>(dp) {
+            if !boundary.contains(&x) {
+                boundary.push(x);
+            }
+        }
+        let all = interesting::<T>(dp, rng, quick);
+        for x in &boundary {
             for mi in 0..7 {
-                // quick: every value with 3 of the 7 modes (rotating); all modes for the first values and
-                // for every value within two rounding steps of MIN / MAX (where the prescribed neighbour
-                // may or may not be representable — the overflow boundary of every mode)
-                if quick && i >= 12 && !near_bounds::<T>(x, dp) && (i + mi + dp as usize) % 7 >= 3 {
+                round(r, *x, dp, mi);
+            }
+            if dp == 0 {
+                floor_ceil(r, *x);
+            }
+        }
+        for (i, x) in all.iter().enumerate() {
+            if !is_bulk::<T>(x, dp, &boundary) {
+                continue;
+            }
+            for mi in 0..7 {
+                if quick && !near_bounds::<T>(x, dp) && (i + mi + dp as usize) % 7 >= 3 {
                     continue;
                 }
                 round(r, *x, dp, mi);
             }
-            if dp == 0 && (i % 2 == 0 || !quick) {
+            if dp == 0 {
                 floor_ceil(r, *x);
             }
         }
     }
     let bnd = boundary_values::<T>();
     for (i, x) in bnd.iter().enumerate() {
-        if quick && i % 6 != 0 {
+        if quick && i % 10 != 0 {
             continue;
         }
         round(r, *x, rng.gen_range(0..=T::SD), rng.gen_range(0..7));
@@ -116,7 +165,7 @@ fn round_for<T: Fx>(r: &mut Rec, rng: &mut StdRng, scale: usize) {
             floor_ceil(r, *x);
         }
     }
-    for i in 0..(600 * scale) {
+    for i in 0..(if quick { 300 } else { 600 * scale }) {
         let x = random_value::<T>(rng);
         round(r, x, rng.gen_range(0..=T::SD), i % 7);
         if i % 10 == 0 {
@@ -125,59 +174,92 @@ fn round_for<T: Fx>(r: &mut Rec, rng: &mut StdRng, scale: usize) {
     }
 }
 
+fn withdraw_one(r: &mut Rec, x: Decimal, div: u8, strategy: Option<usize>) {
+    let (strat, name) = match strategy {
+        Some(mi) => (WithdrawStrategy::Rounded(MODES[mi].0), MODES[mi].1),
+        None => (WithdrawStrategy::Exact, "Exact"),
+    };
+    let (o, v) = opt_out(catch(|| x.for_withdrawal(div, strat)));
+    r.emit(json!({"a": "withdraw", "ty": "d", "x": x.limbs(), "dp": div, "mode": name, "out": o, "r": v}));
+}
+
 fn withdraw(r: &mut Rec, rng: &mut StdRng, scale: usize) {
     let quick = scale == 1;
-    let mut vals: Vec<Decimal> = vec![];
-    for dp in [0u32, 1, 2, 9, 17, 18] {
-        vals.extend(interesting::<Decimal>(dp, rng, true).into_iter().take(if quick { 40 } else { 200 }));
-    }
-    for _ in 0..(100 * scale) {
-        vals.push(random_value::<Decimal>(rng));
-    }
-    for (i, x) in vals.iter().enumerate() {
-        let div = (i % 19) as u8;
-        let (o, v) = opt_out(catch(|| x.for_withdrawal(div, WithdrawStrategy::Exact)));
-        if i % 5 == 0 {
-            r.emit(json!({"a": "withdraw", "ty": "d", "x": x.limbs(), "dp": div, "mode": "Exact", "out": o, "r": v}));
+    // every divisibility 0..18 x (values at / next to a limit FOR THAT divisibility) x (Exact + all 7 modes), in every tier:
+    // MIN / MAX and their neighbourhood, the largest / smallest representable multiples, 0 / u / 2u, their exact ties, +-1 sub-unit
+    for div in 0..=18u32 {
+        let mut vals = range_ends::<Decimal>(div);
+        for x in interesting_boundary::<Decimal>(div) {
+            // quick: the multiples 2u (and their ties) only for the extreme divisibilities
+            if !vals.contains(&x) {
+                vals.push(x);
+            }
         }
-        for k in 0..2 {
-            let (mode, name) = MODES[(i + 3 * k) % 7];
-            let (o, v) = opt_out(catch(|| x.for_withdrawal(div, WithdrawStrategy::Rounded(mode))));
-            r.emit(json!({"a": "withdraw", "ty": "d", "x": x.limbs(), "dp": div, "mode": name, "out": o, "r": v}));
+        for x in &vals {
+            withdraw_one(r, *x, div as u8, None);
+            for mi in 0..7 {
+                withdraw_one(r, *x, div as u8, Some(mi));
+            }
         }
     }
+    // bulk: random values, random divisibility, rotating strategy
+    for i in 0..(if quick { 60 } else { 300 * scale }) {
+        let x = random_value::<Decimal>(rng);
+        let div = rng.gen_range(0..=18) as u8;
+        withdraw_one(r, x, div, if i % 8 == 7 { None } else { Some(i % 7) });
+    }
+}
+
+fn truncate_one(r: &mut Rec, p: PreciseDecimal, mi: usize) {
+    let (mode, name) = MODES[mi];
+    let (o, v) = opt_out(catch(|| p.checked_truncate(mode)));
+    r.emit(json!({"a": "truncate", "x": p.limbs(), "mode": name, "out": o, "r": v}));
 }
 
 fn truncate(r: &mut Rec, rng: &mut StdRng, scale: usize) {
     let quick = scale == 1;
-    let k = Big::pow10(18);
-    let mut vals: Vec<PreciseDecimal> = interesting::<PreciseDecimal>(18, rng, quick);
-    // around the ends of the Decimal range (in PreciseDecimal sub-units)
+    let k = Big::pow10(18); // PreciseDecimal sub-units per Decimal sub-unit: the rounding unit of checked_truncate
+    // limits, ALL 7 modes in every tier: multiples / ties / +-1 around 0, u, 2u and around the ends of the PreciseDecimal
+    // range, and - the overflow boundary of the conversion - everything within two units of Decimal::MIN / MAX
+    let mut limits: Vec<PreciseDecimal> = interesting_boundary::<PreciseDecimal>(18);
+    for x in range_ends::<PreciseDecimal>(18) {
+        limits.push(x);
+    }
+    let h = k.half();
     for edge in [Decimal::max_big(), Decimal::min_big()] {
         let e = edge.mul(&k);
-        for d in [Big::zero(), Big::from_i128(1), Big::from_i128(-1), k.half(), k.half().neg(), k.half().addi(1), k.half().addi(-1),
-                  k.half().neg().addi(1), k.half().neg().addi(-1), k.clone(), k.neg(), k.addi(-1), k.addi(-1).neg()] {
-            if let Some(p) = PreciseDecimal::from_big(&e.add(&d)) {
-                vals.push(p);
+        for m in [-2i128, -1, 0, 1, 2] {
+            let base = e.add(&k.muli(m));
+            for d in [Big::zero(), Big::from_i128(1), Big::from_i128(-1), h.clone(), h.neg(), h.addi(1), h.addi(-1), h.neg().addi(1), h.neg().addi(-1)] {
+                if let Some(p) = PreciseDecimal::from_big(&base.add(&d)) {
+                    if !limits.contains(&p) {
+                        limits.push(p);
+                    }
+                }
             }
         }
     }
+    for p in &limits {
+        for mi in 0..7 {
+            truncate_one(r, *p, mi);
+        }
+    }
+    // bulk: boundary classes and random values, rotating modes in quick runs
+    let mut vals: Vec<PreciseDecimal> = vec![];
     for (i, p) in boundary_values::<PreciseDecimal>().iter().enumerate() {
         if !quick || i % 10 == 0 {
             vals.push(*p);
         }
     }
-    for _ in 0..(150 * scale) {
+    for _ in 0..(if quick { 100 } else { 150 * scale }) {
         vals.push(random_value::<PreciseDecimal>(rng));
     }
     for (i, p) in vals.iter().enumerate() {
         for mi in 0..7 {
-            if quick && i >= 30 && (i + mi) % 7 >= 2 {
+            if quick && (i + mi) % 7 >= 2 {
                 continue;
             }
-            let (mode, name) = MODES[mi];
-            let (o, v) = opt_out(catch(|| p.checked_truncate(mode)));
-            r.emit(json!({"a": "truncate", "x": p.limbs(), "mode": name, "out": o, "r": v}));
+            truncate_one(r, *p, mi);
         }
     }
 }
